@@ -906,13 +906,16 @@ impl Storage {
 
                 self.db
                     .iterator(mode)
+                    .take_while(|(key, _value)| key.starts_with(&key_prefix))
+                    // Skip the keys of other scripts whose args just start with the args of
+                    // this script: block number (8), tx index (4), cell index (4), cell type (1)
+                    .filter(|(key, _value)| key.len() == key_prefix_len + 17)
                     .take_while(|(key, _value)| {
-                        key.starts_with(&key_prefix)
-                            && BlockNumber::from_be_bytes(
-                                key[key_prefix_len..key_prefix_len + 8]
-                                    .try_into()
-                                    .expect("stored BlockNumber"),
-                            ) >= to_number
+                        BlockNumber::from_be_bytes(
+                            key[key_prefix_len..key_prefix_len + 8]
+                                .try_into()
+                                .expect("stored BlockNumber"),
+                        ) >= to_number
                     })
                     .for_each(|(key, value)| {
                         let block_number = BlockNumber::from_be_bytes(
